@@ -42,7 +42,8 @@ def argsOfJson (j : Json) : GenArgs :=
     labels := getStrList j "labels", deps := getStrList j "deps",
     versionPath := getStr j "versionPath", locations := getStrList j "locations",
     sqlNoEnv := getBoolD j "sqlNoEnv", tzOk := (getBool j "tzOk").getD true,
-    encodable := (getBool j "encodable").getD true }
+    encodable := (getBool j "encodable").getD true,
+    fileTaken := (getBool j "fileTaken").getD false }
 
 /-- fold of `generate_revision` calls over the incrementally updated map; an error leaves the map as it was -/
 def runCalls : LMap → List GenArgs → List Json
